@@ -67,6 +67,7 @@ func (o *Ordering) Validate() error {
 		validation.Field(&o.Code),
 		validation.Field(&o.Identities),
 		validation.Field(&o.Cost),
+		validation.Field(&o.Period),
 		validation.Field(&o.Projects),
 		validation.Field(&o.Contracts),
 		validation.Field(&o.Purchases),
